@@ -43,6 +43,15 @@ func c09S1Worker(env *fw.Env) {
 				c09WedgedHSMS(env, c09S1Case{Index: i, Handler: "blocks (hsmsss)", End: end, Role: role})
 			}
 		}
+		// senders queued on the write lock when the generation ends (c09_queued.go)
+		for _, end := range []string{"close", "peer-reset"} {
+			i := k
+			k++
+			if !env.Mine(i) || !env.Want(i) {
+				continue
+			}
+			c09QueuedWriters(env, c09QueuedCase{Index: i, Active: (i+int64(rep))%2 == 1, End: end})
+		}
 		// a waiter on a generation that Close ends while the socket accepts no write (c09_farewell.go)
 		for _, wt := range []int{10_000, 30_000} {
 			i := k
